@@ -2,7 +2,7 @@
    total length), continuity of the arc-length specification, whole-function specifications. *)
 From Coq Require Import ZArith Reals Lra Psatz List Bool Lia Arith.
 From PW Require Import Num NumR Vec NpList Result.
-From PW.model Require Import M_polyline_base M_segment M_polyline_nearest M_polyline_length.
+From PW.model Require Import M_polyline_base M_segment M_polyline_nearest M_polyline_length M_polyline_length_spec.
 From PW.proofs Require Import P_vec P_nplist P_segment P_polyline_length.
 Import ListNotations.
 Local Open Scope R_scope.
@@ -245,8 +245,6 @@ Proof.
 Qed.
 
 (* ---- the segments of a polyline form a chain that starts at the first vertex ---- *)
-Fixpoint chained (start : vec3 R) (segs : list (vec3 R * vec3 R)) : Prop :=
-  match segs with [] => True | s :: r => fst s = start /\ chained (snd s) r end.
 Lemma chained_app l1 : forall s l2, chained s l1 -> chained (segs_end s l1) l2 -> chained s (l1 ++ l2).
 Proof.
   induction l1 as [|x r IH]; intros s l2 H1 H2; [exact H2|].
@@ -519,10 +517,6 @@ Section Bisect.
   Qed.
 End Bisect.
 
-Definition bisect_ips (pl : polyline R) (idx : list nat) : list (nat * vec3 R) :=
-  map (fun i => (edge_end pl i,
-                 match nth_error (pl_segments pl) i with Some s => seg_mid ROps s | None => vzero ROps end)) idx.
-
 Lemma bisect_inv pl idx r : bisect ROps pl idx = Ok r ->
   (forall i, In i idx -> (i < length (pl_segments pl))%nat) /\
   fst (fst r) = MkPolyline (insert_multi_from 0 (pv pl) (bisect_ips pl idx)) (pclosed pl).
@@ -625,133 +619,166 @@ Proof.
     rewrite <- IH. f_equal. rewrite <- !app_assoc. reflexivity.
 Qed.
 
-Lemma points_at_absent q : forall ips : list (nat * vec3 R), ~ In q (map fst ips) ->
-  points_at q ips = [] /\ has_insert ips q = false.
+(* counting insertions *)
+Lemma count_le_split (ips : list (nat * vec3 R)) q :
+  length (filter (fun ip => Nat.leb (fst ip) q) ips) =
+  (length (filter (fun ip => Nat.ltb (fst ip) q) ips) + length (points_at q ips))%nat.
 Proof.
-  unfold points_at, has_insert. induction ips as [|[k p] r IH]; intros H; [split; reflexivity|].
-  cbn [map fst In] in H. cbn [filter existsb fst].
-  destruct (Nat.eqb_spec k q) as [->|Hne]; [exfalso; apply H; left; reflexivity|].
-  cbn [orb]. apply IH. intros Hq. apply H. right. exact Hq.
+  unfold points_at. rewrite map_length. induction ips as [|[k p] r IH]; [reflexivity|].
+  cbn [filter fst]. destruct (Nat.leb_spec k q), (Nat.ltb_spec k q), (Nat.eqb_spec k q); cbn [length]; lia.
 Qed.
-Lemma points_at_distinct q : forall ips : list (nat * vec3 R), NoDup (map fst ips) ->
-  length (points_at q ips) = if has_insert ips q then 1%nat else 0%nat.
+Lemma count_lt_S (ips : list (nat * vec3 R)) q :
+  length (filter (fun ip => Nat.ltb (fst ip) (S q)) ips) = length (filter (fun ip => Nat.leb (fst ip) q) ips).
 Proof.
-  induction ips as [|[k p] r IH]; intros H; [reflexivity|].
-  cbn [map fst] in H. inversion H as [|? ? Hnin Hnd]; subst.
-  unfold points_at, has_insert in *. cbn [filter existsb fst].
-  destruct (Nat.eqb_spec k q) as [->|Hne].
-  - cbn [orb map length]. destruct (points_at_absent q r Hnin) as [E _]. unfold points_at in E. rewrite E. reflexivity.
-  - cbn [orb]. apply IH. exact Hnd.
+  reflexivity.
 Qed.
-Lemma cnt_from_filter ips : NoDup (map fst ips) -> forall j k0,
-  cnt_from ips k0 j = length (filter (has_insert ips) (seq k0 (S j))).
+Lemma count_lt_0 (ips : list (nat * vec3 R)) : length (filter (fun ip => Nat.ltb (fst ip) 0) ips) = 0%nat.
+Proof. induction ips as [|x y IH]; [reflexivity|exact IH]. Qed.
+Lemma cnt_from_count ips : forall j k0,
+  (cnt_from ips k0 j + length (filter (fun ip => Nat.ltb (fst ip) k0) ips))%nat = count_le ips (k0 + j).
 Proof.
-  intros Hn. induction j as [|j IH]; intros k0.
-  - cbn [cnt_from seq filter]. rewrite (points_at_distinct k0 ips Hn). destruct (has_insert ips k0); reflexivity.
-  - cbn [cnt_from]. rewrite IH, (points_at_distinct k0 ips Hn).
-    change (seq k0 (S (S j))) with (k0 :: seq (S k0) (S j)). cbn [filter].
-    destruct (has_insert ips k0); reflexivity.
+  unfold count_le. induction j as [|j IH]; intros k0; cbn [cnt_from].
+  - rewrite Nat.add_0_r, count_le_split. lia.
+  - specialize (IH (S k0)). rewrite count_lt_S, count_le_split in IH.
+    replace (k0 + S j)%nat with (S k0 + j)%nat by lia. lia.
 Qed.
-
-Lemma nth_map_seq {A} (f : nat -> A) n k d : (k < n)%nat -> List.nth k (map f (seq 0 n)) d = f k.
+Fixpoint before_from (ips : list (nat * vec3 R)) (k0 j : nat) : nat :=
+  match j with 0%nat => 0%nat | S j' => (length (points_at k0 ips) + before_from ips (S k0) j')%nat end.
+Lemma before_from_count ips : forall j k0,
+  (before_from ips k0 j + length (filter (fun ip => Nat.ltb (fst ip) k0) ips))%nat =
+  length (filter (fun ip => Nat.ltb (fst ip) (k0 + j)) ips).
 Proof.
-  intros H. rewrite nth_indep with (d' := f 0%nat) by (rewrite map_length, seq_length; exact H).
-  rewrite map_nth, seq_nth by exact H. reflexivity.
+  induction j as [|j IH]; intros k0; cbn [before_from]; [rewrite Nat.add_0_r; reflexivity|].
+  specialize (IH (S k0)). rewrite count_lt_S, count_le_split in IH.
+  replace (k0 + S j)%nat with (S k0 + j)%nat by lia. lia.
 Qed.
-
-(* distinct end vertices (i.e. no segment chosen twice): every original vertex is found at its reported new index *)
-Lemma bisect_orig_indices pl idx r : bisect ROps pl idx = Ok r -> NoDup (map (edge_end pl) idx) ->
-  forall k v, nth_error (pv pl) k = Some v ->
-    exists i, nth_error (snd (fst r)) k = Some i /\ nth_error (pv (fst (fst r))) i = Some v.
+(* the r-th point inserted before vertex j sits after all earlier insertions and the j earlier vertices *)
+Lemma insert_multi_at ips : forall (vs : list (vec3 R)) k0 pre j r p, (j <= length vs)%nat ->
+  nth_error (points_at (k0 + j) ips) r = Some p ->
+  nth_error (pre ++ insert_multi_from k0 vs ips) (length pre + before_from ips k0 j + j + r) = Some p.
 Proof.
-  intros H Hnd k v Hk. unfold bisect in H. destruct (existsb _ idx); [discriminate|]. injection H as <-.
-  cbn [fst snd pv].
-  set (ips := map (fun i => (edge_end pl i, match nth_error (pl_segments pl) i with Some s => seg_mid ROps s | None => vzero ROps end)) idx).
-  assert (Hn : NoDup (map fst ips)) by (unfold ips; rewrite map_map; cbn [fst]; exact Hnd).
-  assert (Hlt : (k < length (pv pl))%nat) by (apply nth_error_Some; congruence).
-  exists (k + length (filter (has_insert ips) (seq 0 (S k))))%nat. split.
-  - rewrite nth_error_map. rewrite nth_error_nth' with (d := 0%nat) by (rewrite seq_length; exact Hlt).
-    rewrite seq_nth by exact Hlt. cbn [option_map Nat.add]. f_equal. f_equal.
-    unfold cum_offsets. apply (nth_map_seq (fun k0 => length (filter (has_insert ips) (seq 0 (S k0))))). exact Hlt.
-  - pose proof (insert_multi_nth ips (pv pl) 0%nat [] k v Hk) as HI. cbn [app length] in HI.
-    rewrite (cnt_from_filter ips Hn) in HI.
-    replace (k + length (filter (has_insert ips) (seq 0 (S k))))%nat
-      with (0 + length (filter (has_insert ips) (seq 0 (S k))) + k)%nat by lia. exact HI.
+  induction vs as [|v0 rest IH]; intros k0 pre j r p Hj Hp.
+  - cbn [length] in Hj. assert (j = 0%nat) by lia. subst j. rewrite Nat.add_0_r in Hp.
+    cbn [insert_multi_from before_from]. rewrite nth_error_app2 by lia.
+    replace (length pre + 0 + 0 + r - length pre)%nat with r by lia. exact Hp.
+  - cbn [insert_multi_from]. destruct j as [|j]; cbn [before_from].
+    + rewrite Nat.add_0_r in Hp. rewrite nth_error_app2 by lia.
+      replace (length pre + 0 + 0 + r - length pre)%nat with r by lia.
+      rewrite nth_error_app1 by (apply nth_error_Some; congruence). exact Hp.
+    + replace (k0 + S j)%nat with (S k0 + j)%nat in Hp by lia. cbn [length] in Hj.
+      specialize (IH (S k0) (pre ++ points_at k0 ips ++ [v0]) j r p ltac:(lia) Hp).
+      rewrite !app_length in IH. cbn [length] in IH.
+      replace (length pre + (length (points_at k0 ips) + before_from ips (S k0) j) + S j + r)%nat
+        with (length pre + (length (points_at k0 ips) + 1) + before_from ips (S k0) j + j + r)%nat by lia.
+      rewrite <- IH. f_equal. rewrite <- !app_assoc. reflexivity.
 Qed.
-
-(* ---- ... and of the inserted midpoints ---- *)
-Lemma cnt_from_ge_last ips : forall j k0, (length (points_at (k0 + j) ips) <= cnt_from ips k0 j)%nat.
+(* the j-th given point is, among the points given for its index, the one whose rank is the number of earlier
+   points with the same index (np.insert is stable) *)
+Lemma points_at_rank q p : forall (ips : list (nat * vec3 R)) j, nth_error ips j = Some (q, p) ->
+  nth_error (points_at q ips) (length (filter (fun ip => Nat.eqb (fst ip) q) (firstn j ips))) = Some p.
 Proof.
-  induction j as [|j IH]; intros k0; cbn [cnt_from]; [rewrite Nat.add_0_r; lia|].
-  specialize (IH (S k0)). replace (S k0 + j)%nat with (k0 + S j)%nat in IH by lia. lia.
+  unfold points_at. induction ips as [|[q0 p0] r IH]; intros j Hj; [destruct j; discriminate|].
+  destruct j as [|j]; cbn [nth_error] in Hj.
+  - injection Hj as -> ->. cbn [firstn filter length fst]. rewrite Nat.eqb_refl. reflexivity.
+  - cbn [firstn filter fst]. destruct (Nat.eqb_spec q0 q); cbn [map length nth_error snd]; apply IH; exact Hj.
 Qed.
-Lemma insert_multi_before ips : forall (vs : list (vec3 R)) k0 pre j v p, nth_error vs j = Some v ->
-  points_at (k0 + j) ips = [p] ->
-  nth_error (pre ++ insert_multi_from k0 vs ips) (length pre + cnt_from ips k0 j + j - 1) = Some p.
+Lemma nth_error_combine_seq {A} (l : list A) : forall a j x, nth_error l j = Some x ->
+  nth_error (combine (seq a (length l)) l) j = Some ((a + j)%nat, x).
 Proof.
-  induction vs as [|v0 r IH]; intros k0 pre j v p Hj Hp; [destruct j; discriminate|].
-  cbn [insert_multi_from]. destruct j as [|j]; cbn [nth_error cnt_from] in *.
-  - rewrite Nat.add_0_r in Hp. rewrite Hp. cbn [length app].
-    rewrite nth_error_app2 by lia. replace (length pre + 1 + 0 - 1 - length pre)%nat with 0%nat by lia. reflexivity.
-  - replace (k0 + S j)%nat with (S k0 + j)%nat in Hp by lia.
-    pose proof (cnt_from_ge_last ips j (S k0)) as Hge. rewrite Hp in Hge. cbn [length] in Hge.
-    specialize (IH (S k0) (pre ++ points_at k0 ips ++ [v0]) j v p Hj Hp).
-    rewrite !app_length in IH. cbn [length] in IH.
-    replace (length pre + (length (points_at k0 ips) + cnt_from ips (S k0) j) + S j - 1)%nat
-      with (length pre + (length (points_at k0 ips) + 1) + cnt_from ips (S k0) j + j - 1)%nat by lia.
-    rewrite <- IH. f_equal. rewrite <- !app_assoc. reflexivity.
+  induction l as [|y r IH]; intros a j x Hj; [destruct j; discriminate|].
+  cbn [length seq combine]. destruct j as [|j]; cbn [nth_error] in *.
+  - injection Hj as <-. rewrite Nat.add_0_r. reflexivity.
+  - rewrite (IH (S a) j x Hj). f_equal. f_equal. lia.
 Qed.
-Lemma points_at_single q p : forall ips : list (nat * vec3 R), NoDup (map fst ips) -> In (q, p) ips ->
-  points_at q ips = [p].
+Lemma nth_map_seq {A} (f : nat -> A) n k : (k < n)%nat -> nth_error (map f (seq 0 n)) k = Some (f k).
 Proof.
-  induction ips as [|[k p'] r IH]; intros Hn Hin; [destruct Hin|].
-  cbn [map fst] in Hn. inversion Hn as [|? ? Hnin Hnd]; subst.
-  unfold points_at in *. cbn [filter fst]. destruct Hin as [E|Hin].
-  - injection E as -> ->. rewrite Nat.eqb_refl. cbn [map snd]. f_equal.
-    destruct (points_at_absent q r Hnin) as [E _]. unfold points_at in E. exact E.
-  - destruct (Nat.eqb_spec k q) as [->|Hne]; [|apply IH; assumption].
-    exfalso. apply Hnin. apply in_map_iff. exists (q, p). split; [reflexivity|exact Hin].
+  intros H. rewrite nth_error_map. rewrite nth_error_nth' with (d := 0%nat) by (rewrite seq_length; exact H).
+  rewrite seq_nth by exact H. reflexivity.
 Qed.
-
-Lemma bisect_inserted_indices pl idx r : bisect ROps pl idx = Ok r -> NoDup (map (edge_end pl) idx) ->
-  forall j i s, nth_error idx j = Some i -> nth_error (pl_segments pl) i = Some s ->
-    (edge_end pl i < length (pv pl))%nat ->
-    exists m, nth_error (snd r) j = Some m /\ nth_error (pv (fst (fst r))) m = Some (seg_mid ROps s).
-Proof.
-  intros H Hnd j i s Hj Hs Hk. unfold bisect in H. destruct (existsb _ idx); [discriminate|]. injection H as <-.
-  cbn [fst snd pv].
-  set (ips := map (fun i => (edge_end pl i, match nth_error (pl_segments pl) i with Some s => seg_mid ROps s | None => vzero ROps end)) idx).
-  assert (Hn : NoDup (map fst ips)) by (unfold ips; rewrite map_map; cbn [fst]; exact Hnd).
-  assert (Hip : nth_error ips j = Some (edge_end pl i, seg_mid ROps s)).
-  { unfold ips. rewrite nth_error_map, Hj. cbn [option_map]. rewrite Hs. reflexivity. }
-  set (k := edge_end pl i) in *.
-  destruct (nth_error (pv pl) k) as [v|] eqn:Ev; [|apply nth_error_None in Ev; lia].
-  exists (k + length (filter (has_insert ips) (seq 0 (S k))) - 1)%nat. split.
-  - rewrite nth_error_map, Hip. cbn [option_map fst]. f_equal. f_equal. f_equal.
-    unfold cum_offsets. apply (nth_map_seq (fun k0 => length (filter (has_insert ips) (seq 0 (S k0))))). exact Hk.
-  - assert (Hp : points_at (0 + k) ips = [seg_mid ROps s]).
-    { apply points_at_single; [exact Hn|]. eapply nth_error_In. exact Hip. }
-    pose proof (insert_multi_before ips (pv pl) 0%nat [] k v _ Ev Hp) as HI. cbn [app length] in HI.
-    rewrite (cnt_from_filter ips Hn) in HI.
-    replace (k + length (filter (has_insert ips) (seq 0 (S k))) - 1)%nat
-      with (0 + length (filter (has_insert ips) (seq 0 (S k))) + k - 1)%nat by lia. exact HI.
-Qed.
-
 Lemma edge_end_in_range (pl : polyline R) i : (i < length (pl_segments pl))%nat -> (edge_end pl i < length (pv pl))%nat.
 Proof.
   intros H. rewrite pl_segments_length in H. unfold edge_end.
   destruct (pv pl) as [|h t]; [lia|]. cbn [length] in *.
   destruct (pclosed pl); cbn [andb]; [destruct (Nat.eqb_spec (S i) (S (length t))); lia|lia].
 Qed.
-(* ret_new_indices, when no segment is chosen twice: every original vertex and every inserted midpoint is found at
-   its reported new index *)
-Lemma bisect_new_indices pl idx r : bisect ROps pl idx = Ok r -> NoDup (map (edge_end pl) idx) ->
+
+(* ret_new_indices, for EVERY index list (any order, repetitions allowed): each original vertex and each inserted
+   midpoint is found at its reported new index *)
+Lemma bisect_new_indices pl idx r : bisect ROps pl idx = Ok r ->
   (forall k v, nth_error (pv pl) k = Some v ->
      exists i, nth_error (snd (fst r)) k = Some i /\ nth_error (pv (fst (fst r))) i = Some v) /\
   (forall j i s, nth_error idx j = Some i -> nth_error (pl_segments pl) i = Some s ->
      exists m, nth_error (snd r) j = Some m /\ nth_error (pv (fst (fst r))) m = Some (seg_mid ROps s)).
 Proof.
-  intros H Hnd. split; [exact (bisect_orig_indices pl idx r H Hnd)|].
-  intros j i s Hj Hs. apply (bisect_inserted_indices pl idx r H Hnd j i s Hj Hs).
-  apply edge_end_in_range. apply nth_error_Some. congruence.
+  intros H. unfold bisect in H. destruct (existsb _ idx); [discriminate|]. injection H as <-.
+  cbn [fst snd pv].
+  set (ips := map (fun i => (edge_end pl i, match nth_error (pl_segments pl) i with Some s => seg_mid ROps s | None => vzero ROps end)) idx).
+  split.
+  - intros k v Hk. assert (Hlt : (k < length (pv pl))%nat) by (apply nth_error_Some; congruence).
+    exists (k + count_le ips k)%nat. split; [apply (nth_map_seq (fun k0 => (k0 + count_le ips k0)%nat)); exact Hlt|].
+    pose proof (insert_multi_nth ips (pv pl) 0%nat [] k v Hk) as HI. cbn [app length] in HI.
+    pose proof (cnt_from_count ips k 0%nat) as HC. rewrite count_lt_0 in HC.
+    cbn [Nat.add] in HC. rewrite Nat.add_0_r in HC. rewrite HC in HI.
+    replace (k + count_le ips k)%nat with (0 + count_le ips k + k)%nat by lia. exact HI.
+  - intros j i s Hj Hs.
+    assert (Hip : nth_error ips j = Some (edge_end pl i, seg_mid ROps s)).
+    { unfold ips. rewrite nth_error_map, Hj. cbn [option_map]. rewrite Hs. reflexivity. }
+    set (q := edge_end pl i) in *.
+    assert (Hq : (q < length (pv pl))%nat) by (apply edge_end_in_range; apply nth_error_Some; congruence).
+    exists (inserted_pos ips j q). split.
+    + rewrite nth_error_map, (nth_error_combine_seq ips 0%nat j _ Hip). reflexivity.
+    + pose proof (points_at_rank q (seg_mid ROps s) ips j Hip) as Hr.
+      pose proof (insert_multi_at ips (pv pl) 0%nat [] q _ _ ltac:(lia) Hr) as HI. cbn [app length] in HI.
+      pose proof (before_from_count ips q 0%nat) as HB. rewrite count_lt_0 in HB.
+      cbn [Nat.add] in HB. rewrite Nat.add_0_r in HB. rewrite HB in HI.
+      unfold inserted_pos.
+      replace (q + length (filter (fun ip => Nat.ltb (fst ip) q) ips) +
+               length (filter (fun ip => Nat.eqb (fst ip) q) (firstn j ips)))%nat
+        with (0 + length (filter (fun ip => Nat.ltb (fst ip) q) ips) + q +
+              length (filter (fun ip => Nat.eqb (fst ip) q) (firstn j ips)))%nat by lia.
+      exact HI.
 Qed.
+
+(* ---- subdivided_by_length: one list of insertions per vertex, hence every original vertex at its reported index ---- *)
+Lemma inserts_per_vertex_length pl mx mask : length mask = length (pl_segments pl) ->
+  length (inserts_per_vertex ROps pl mx mask) = length (pv pl).
+Proof.
+  intros Hl. unfold inserts_per_vertex, map2. rewrite app_length, map_length, zip_length, Hl, Nat.min_id.
+  rewrite pl_segments_length. destruct (pv pl) as [|h t]; [destruct (pclosed pl); reflexivity|].
+  destruct (pclosed pl); cbn [length]; lia.
+Qed.
+Lemma subdivide_originals_at_indices pl mx mask r k v : subdivided_by_length ROps pl mx mask = Ok r ->
+  nth_error (pv pl) k = Some v ->
+  exists i il, nth_error (snd r) k = Some i /\ nth_error (pv (fst r)) i = Some v /\
+    nth_error (inserts_per_vertex ROps pl mx
+                 (match mask with Some m => m | None => repeat true (length (pl_segments pl)) end)) k = Some il /\
+    (forall j p, nth_error il j = Some p -> nth_error (pv (fst r)) (S (i + j)) = Some p).
+Proof.
+  intros H Hk.
+  set (m := match mask with Some m => m | None => repeat true (length (pl_segments pl)) end).
+  assert (Hm : length m = length (pl_segments pl) /\ r = (MkPolyline (interleave (pv pl) (inserts_per_vertex ROps pl mx m)) (pclosed pl), index_map_from 0 (inserts_per_vertex ROps pl mx m))).
+  { unfold subdivided_by_length in H. unfold m. destruct mask as [m0|].
+    - destruct (Nat.eqb_spec (length m0) (length (pl_segments pl))) as [E|E]; [|discriminate]. injection H as <-. split; [exact E|reflexivity].
+    - injection H as <-. split; [apply repeat_length|reflexivity]. }
+  destruct Hm as [Hl ->]. cbn [fst snd pv].
+  assert (Hlt : (k < length (inserts_per_vertex ROps pl mx m))%nat)
+    by (rewrite (inserts_per_vertex_length pl mx m Hl); apply nth_error_Some; congruence).
+  destruct (nth_error (inserts_per_vertex ROps pl mx m) k) as [il|] eqn:Ei; [|apply nth_error_None in Ei; lia].
+  destruct (interleave_spec (pv pl) _ [] k v il Hk Ei) as [i [H1 [H2 [H3 _]]]].
+  exists i, il. repeat split; assumption.
+Qed.
+
+(* ---- lengths / centroid statement split into its definitional and its substantive part ---- *)
+Lemma lengths_shape pl :
+  (forall k, nth_error (segment_lengths ROps pl) k =
+             option_map (fun s => vnorm ROps (vsub ROps (snd s) (fst s))) (nth_error (pl_segments pl) k)) /\
+  total_length ROps pl = nsum ROps (segment_lengths ROps pl).
+Proof. exact (conj (proj1 (lengths_sum_centroid pl)) (proj1 (proj2 (lengths_sum_centroid pl)))). Qed.
+Lemma centroid_spec pl :
+  0 <= total_length ROps pl /\
+  (forall c, path_centroid ROps pl = Ok c ->
+     total_length ROps pl <> 0 /\
+     vscale ROps (total_length ROps pl) c =
+       vsum ROps (map (fun s => vscale ROps (seg_len ROps s) (vscale ROps (1 / 2) (vadd ROps (fst s) (snd s)))) (pl_segments pl))) /\
+  (total_length ROps pl = 0 -> path_centroid ROps pl = Raise ZeroDivisionError).
+Proof. exact (proj2 (proj2 (lengths_sum_centroid pl))). Qed.
